@@ -11,6 +11,8 @@ AlphaTok == << <<123>>, <<125>>, <<91>>, <<93>>, <<58>>, <<44>>, <<34>>, <<92>>,
 AlphaNum == << <<43>>, <<45>>, <<46>>, <<48>>, <<49>>, <<57>>, <<101>>, <<69>> >>
 \* { } [ ] , "a": "b": "b" 0 SPACE      (members: keys with their colon as one token, so that two members fit)
 AlphaObj == << <<123>>, <<125>>, <<91>>, <<93>>, <<44>>, <<34, 97, 34, 58>>, <<34, 98, 34, 58>>, <<34, 98, 34>>, <<48>>, <<32>> >>
+\* { } , "a":"b"          (smallest space in which a member can follow a member without a comma)
+AlphaMem == << <<123>>, <<125>>, <<44>>, <<34, 97, 34, 58, 34, 98, 34>> >>
 \* { } , "a":0 "b":0      (member order)
 AlphaOrd == << <<123>>, <<125>>, <<44>>, <<34, 97, 34, 58, 48>>, <<34, 98, 34, 58, 48>> >>
 \* " \ \ud83d \ude00 \u0041 \u+041 \u004 n 0 LF    (escapes as tokens so that surrogate pairs fit; LF = a raw control character)
